@@ -170,12 +170,26 @@ def wmc_volatile(ck, F):
                 callers.setdefault(p, set()).add(cc)
         if set(F.calls.get(p, [])) & set(sources_):
             callers.setdefault(p, set()).add("get_milliseconds_since_epoch")
-    allowed_fn = ("fn_now", "fn_today", "fn_rand", "fn_randbetween", "fn_randarray", "new_empty", "random", "get_milliseconds_since_epoch")
-    for p, cs in sorted(callers.items()):
+    # apply_cf_time_period: conditional-format "time period" rules (today, last 7 days, ..) are defined relative to the
+    # current date and affect formatting only, never a cell value
+    allowed_fn = ("fn_now", "fn_today", "fn_rand", "fn_randbetween", "fn_randarray", "new_empty", "random", "get_milliseconds_since_epoch",
+                  "apply_cf_time_period")
+
+    def allowed(p, depth=0):
         h = F.heads[p]
         root = F.heads.get(h.get("root") or p, h)
         nm = root.get("name", "")
-        ok = nm in allowed_fn or h["file"].endswith(("mock_time.rs",)) or "random" in h["file"]
+        if nm in allowed_fn or h["file"].endswith(("mock_time.rs",)) or "random" in h["file"]:
+            return True
+        if depth > 3:
+            return False
+        # a helper: every caller must itself be allowed
+        cl = P.callers_of([h.get("root") or p])
+        return bool(cl) and all(allowed(c, depth + 1) for c in cl)
+
+    for p, cs in sorted(callers.items()):
+        h = F.heads[p]
+        ok = allowed(p)
         ck.ob(R, "volatile-source|%s" % F.qname_of(p).split("::", 1)[-1], ok,
               "%s reads a wall-clock/random source (%s): results of non-volatile formulas could differ between evaluations" % (F.qname_of(p), sorted(cs)[:2]),
               h["file"], h["line"], sample={"fn": F.qname_of(p), "sources": sorted(cs)[:3]})
@@ -291,3 +305,367 @@ def date_const(ck, F):
                   "%s turns a date into a number without subtracting EXCEL_DATE_BASE: a different date base than from_excel_date" % b.qname, f, l,
                   sample={"site": b.qname, "subtracts_base": okc})
     ck.note("date_to_serial_sites", n)
+
+
+# ------------------------------------------------------------------------------------------------ C06
+CALC = "ironcalc_base::calc_result::CalcResult"
+NODE_ = "ironcalc_base::expressions::parser::Node"
+
+
+def _closure_ops(F, body, call_term):
+    """Float operations performed by the closure passed as last argument of a handle_arithmetic call."""
+    out = {"binops": [], "calls": [], "errors": [], "consts": []}
+    for a in call_term["args"]:
+        r = body.trace(a)
+        cdef = None
+        if r["kind"] == "rv" and r["rv"]["k"] == "agg" and r["rv"].get("agg") == "closure":
+            cdef = r["rv"]["def"]
+        elif r["kind"] == "const" and "promoted" in r["const"]:
+            # `&|f1, f2| Ok(f1 + f2)`: a promoted reference to a capture-less closure
+            pb = F.body("%s::{promoted#%d}" % (body.path, r["const"]["promoted"]))
+            if pb is not None:
+                for _, _, s in pb.stmts():
+                    if s["rv"]["k"] == "agg" and s["rv"].get("agg") == "closure":
+                        cdef = s["rv"]["def"]
+        if cdef is None:
+            continue
+        cb = F.body(cdef)
+        if cb is None:
+            continue
+        for _, _, s in cb.stmts():
+            rv = s["rv"]
+            if rv["k"] == "bin" and rv.get("ty") == "f64":
+                out["binops"].append(rv["op"])
+                for o in (rv["a"], rv["b"]):
+                    cf = const_float(o)
+                    if cf is not None:
+                        out["consts"].append(cf)
+            if rv["k"] == "agg" and rv.get("adt") == ERROR:
+                out["errors"].append(rv["variant"])
+            if rv["k"] == "use" and rv["o"].get("k") and "Error::" in str(rv["o"]["k"].get("d", "")):
+                out["errors"].append(str(rv["o"]["k"]["d"]).rsplit("::", 1)[-1])
+        for _, t in cb.calls():
+            out["calls"].append((cb.callee_q(t) or "").rsplit("::", 1)[-1])
+    return out
+
+
+def table_ops(ck, F):
+    """TABLE-ops: operator node kinds are evaluated by the arithmetic they denote."""
+    from mir import arm_region, calls_in
+    R = "TABLE-ops"
+    ev = ck.need(F.one, "model::Model::evaluate_node_in_context")
+    top = max(enum_switches(ev, NODE_), key=lambda x: len(x[1]))
+    expect = {("OpSumKind", "ironcalc_base::expressions::token::OpSum", "Add"): (["Add"], [], []),
+              ("OpSumKind", "ironcalc_base::expressions::token::OpSum", "Minus"): (["Sub"], [], []),
+              ("OpProductKind", "ironcalc_base::expressions::token::OpProduct", "Times"): (["Mul"], [], []),
+              ("OpProductKind", "ironcalc_base::expressions::token::OpProduct", "Divide"): (["Eq", "Div"], [], ["DIV"])}
+    for (nk, enum, variant), (ops, calls, errs) in expect.items():
+        region = arm_region(ev, top[0], top[1][nk])
+        sub = [x for x in enum_switches(ev, enum) if x[0] in region]
+        ok = len(sub) == 1 and variant in sub[0][1]
+        got = None
+        if ok:
+            sreg = arm_region(ev, sub[0][0], sub[0][1][variant])
+            hs = [(cb, t) for cb, t in calls_in(ev, sreg) if (ev.callee_q(t) or "").endswith("Model::handle_arithmetic")]
+            ok = len(hs) == 1
+            if ok:
+                got = _closure_ops(F, ev, hs[0][1])
+                ok = sorted(got["binops"]) == sorted(ops) and sorted(set(got["errors"])) == sorted(errs) and \
+                    (variant != "Divide" or 0.0 in got["consts"])
+        f, l = ev.loc(top[1][nk])
+        ck.ob(R, "%s::%s" % (nk, variant), bool(ok),
+              "Node::%s with %s::%s is evaluated by %s, expected float %s%s" % (nk, enum.rsplit("::", 1)[-1], variant, got, ops, " guarded by == 0.0 -> #DIV/0!" if errs else ""),
+              f, l, sample={"node": nk, "op": variant, "closure": got})
+    # power
+    region = arm_region(ev, top[0], top[1]["OpPowerKind"])
+    hs = [(cb, t) for cb, t in calls_in(ev, region) if (ev.callee_q(t) or "").endswith("Model::handle_arithmetic")]
+    got = _closure_ops(F, ev, hs[0][1]) if len(hs) == 1 else None
+    ck.ob(R, "OpPowerKind", bool(got) and got["calls"].count("powf") == 1 and not got["binops"],
+          "Node::OpPowerKind is evaluated by %s, expected f64::powf" % got, *ev.loc(top[1]["OpPowerKind"]), sample={"node": "OpPowerKind", "closure": got})
+    # unary
+    region = arm_region(ev, top[0], top[1]["UnaryKind"])
+    sub = [x for x in enum_switches(ev, "ironcalc_base::expressions::token::OpUnary") if x[0] in region]
+    if len(sub) == 1:
+        for variant, want in (("Minus", ("un", "Neg", None)), ("Percentage", ("bin", "Div", 100.0))):
+            sreg = arm_region(ev, sub[0][0], sub[0][1][variant])
+            found = []
+            for x in sorted(sreg):
+                for s in ev.blocks[x]["s"]:
+                    rv = s["rv"]
+                    if rv["k"] == "un" and rv.get("ty") == "f64":
+                        found.append(("un", rv["op"], None))
+                    if rv["k"] == "bin" and rv.get("ty") == "f64":
+                        found.append(("bin", rv["op"], const_float(rv["b"])))
+            ck.ob(R, "UnaryKind::%s" % variant, found == [want], "Node::UnaryKind(%s) is evaluated by %s, expected %s" % (variant, found, want),
+                  *ev.loc(sub[0][1][variant]), sample={"node": "UnaryKind", "op": variant, "ops": [list(map(str, x)) for x in found]})
+    else:
+        ck.anchor("evaluate_node_in_context: match over OpUnary")
+    # comparisons: interpret the predicate closure for every operator and every sign of compare_values
+    from pathx import Interp, UNKNOWN
+    hc = ck.need(F.one, "model::Model::handle_comparison")
+    OC = "ironcalc_base::expressions::token::OpCompare"
+    closures = [F.body(p) for p in F.body_paths() if p.startswith(hc.path + "::{closure")]
+    apply = [c for c in closures if c is not None and enum_switches(c, OC)]
+    ck.ob(R, "handle_comparison|predicate-closure", len(apply) == 1, "expected one closure matching on OpCompare, found %d" % len(apply), hc.file, hc.line)
+    truth = {"Equal": lambda c: c == 0, "LessThan": lambda c: c < 0, "GreaterThan": lambda c: c > 0, "LessOrEqualThan": lambda c: c <= 0,
+             "GreaterOrEqualThan": lambda c: c >= 0, "NonEqual": lambda c: c != 0}
+    if len(apply) == 1:
+        cb = apply[0]
+        for op, fn in truth.items():
+            for cmp in (-1, 0, 1):
+                class I3(Interp):
+                    def eval_rvalue(self, rv, st, env):
+                        if rv["k"] == "discr" and rv.get("adt") == OC:
+                            return ("variant", op)
+                        return Interp.eval_rvalue(self, rv, st, env)
+
+                def hook(interp, t, argv, st, env, _c=cmp):
+                    if (cb.callee_q(t) or "").endswith("compare_values"):
+                        return _c
+                    return UNKNOWN
+                ps = I3(cb, F, call_hook=hook).run({})
+                rets = {p.ret for p in ps}
+                ok = rets == {fn(cmp)}
+                ck.ob(R, "compare|%s|cmp=%d" % (op, cmp), ok,
+                      "OpCompare::%s with compare_values == %d yields %s, expected %s" % (op, cmp, rets, fn(cmp)), cb.file, cb.line,
+                      sample={"operator": op, "compare_values": cmp, "result": [str(r) for r in rets]})
+
+
+def table_cmp(ck, F):
+    """TABLE-cmp: the kind x kind table of compare_values is antisymmetric, orders Number < String < Boolean < Error and
+    sends EmptyCell to the neutral element of the other operand's kind."""
+    from pathx import Interp, UNKNOWN
+    R = "TABLE-cmp"
+    b = ck.need(F.one, "functions::util::compare_values")
+    kinds = ["Number", "String", "Boolean", "EmptyCell", "Error"]
+    table = {}
+    for a in kinds:
+        for c in kinds:
+            calls = []
+
+            def hook(interp, t, argv, st, env):
+                q = b.callee_q(t) or ""
+                if q.endswith("compare_values"):
+                    # which aggregate replaces the empty operand
+                    subs = []
+                    for arg in t["args"]:
+                        r = b.trace(arg)
+                        k = None
+                        if r["kind"] == "rv" and r["rv"]["k"] == "agg" and r["rv"].get("adt") == CALC:
+                            k = (r["rv"]["variant"], [str(o.get("k", {}).get("d")) if o.get("k") else "?" for o in r["rv"]["ops"]])
+                        elif r["kind"] == "const" and "promoted" in r["const"]:
+                            pb = F.body("%s::{promoted#%d}" % (b.path, r["const"]["promoted"]))
+                            if pb is not None:
+                                for _, _, s in pb.stmts():
+                                    if s["rv"]["k"] == "agg" and s["rv"].get("adt") == CALC:
+                                        k = (s["rv"]["variant"], [str(o.get("k", {}).get("d")) if o.get("k") else "?" for o in s["rv"]["ops"]])
+                        elif r["kind"] == "arg":
+                            k = ("same", r.get("name"))
+                        elif r["kind"] == "place":
+                            k = ("same", b.local_name(b.resolve_place(r["place"])["l"]))
+                        subs.append(k)
+                    calls.append(subs)
+                    return ("recursive", subs)
+                return UNKNOWN
+            ps = Interp(b, F, call_hook=hook, max_paths=64).run({"left": ("variantref", a), "right": ("variantref", c)})
+            rets = set()
+            for p in ps:
+                r = p.ret
+                if isinstance(r, int) and not isinstance(r, bool):
+                    rets.add(r)
+                elif isinstance(r, tuple) and r and r[0] == "recursive":
+                    rets.add(("rec", str(r[1])))
+                else:
+                    rets.add("value-dependent")
+            table[(a, c)] = rets
+    order = {"Number": 0, "String": 1, "Boolean": 2, "Error": 3}
+    for a in kinds:
+        for c in kinds:
+            got = table[(a, c)]
+            key = "%s,%s" % (a, c)
+            if a in order and c in order and a != c:
+                want = -1 if order[a] < order[c] else 1
+                ck.ob(R, key + "|cross-kind-order", got == {want},
+                      "compare_values(%s, %s) yields %s, expected %d (Number < String < Boolean < Error)" % (a, c, got, want), b.file, b.line,
+                      sample={"left": a, "right": c, "result": sorted(map(str, got))})
+                back = table[(c, a)]
+                ck.ob(R, key + "|antisymmetric", got == {want} and back == {-want},
+                      "compare_values(%s,%s)=%s but compare_values(%s,%s)=%s" % (a, c, got, c, a, back), b.file, b.line)
+            elif a == "EmptyCell" and c == "EmptyCell":
+                ck.ob(R, key + "|empty-equals-empty", got == {0}, "compare_values(Empty, Empty) yields %s" % got, b.file, b.line)
+            elif a == "EmptyCell" or c == "EmptyCell":
+                other = c if a == "EmptyCell" else a
+                if other == "Error":
+                    want = -1 if a == "EmptyCell" else 1
+                    ck.ob(R, key + "|empty-vs-error", got == {want}, "compare_values(%s,%s) yields %s, expected %d" % (a, c, got, want), b.file, b.line)
+                    continue
+                neutral = {"Number": "0.0", "String": "", "Boolean": "false"}[other]
+                ok = len(got) == 1 and isinstance(next(iter(got)), tuple) and other in next(iter(got))[1]
+                ck.ob(R, key + "|empty-is-neutral-%s" % other, ok,
+                      "compare_values(%s,%s) yields %s, expected a recursive comparison with the neutral %s" % (a, c, got, other), b.file, b.line,
+                      sample={"left": a, "right": c, "result": sorted(map(str, got))})
+            else:
+                ck.ob(R, key + "|same-kind", "value-dependent" in got or len(got) >= 1, "", nontrivial=False)
+
+
+# ------------------------------------------------------------------------------------------------ C07 HASH-ORDER
+HASH_ROOTS = ["model::Model::evaluate", "model::Model::set_user_input", "model::Model::insert_rows", "model::Model::delete_rows",
+              "model::Model::insert_columns", "model::Model::delete_columns", "model::Model::move_rows_action",
+              "model::Model::move_columns_action", "model::Model::to_bytes", "model::Model::from_workbook"]
+ITER_FNS = ("iter", "keys", "values", "into_iter", "drain", "iter_mut", "values_mut", "into_keys", "into_values")
+ADAPTERS = ("map", "filter", "filter_map", "flat_map", "copied", "cloned", "enumerate", "into_iter", "chain", "flatten", "rev", "peekable", "by_ref", "inspect", "zip", "skip", "take")
+INSENSITIVE_TERMINALS = ("any", "all", "count", "min", "max", "min_by", "max_by", "min_by_key", "max_by_key", "len", "is_empty", "contains", "contains_key")
+
+# (function, iteration) -> reason the result does not depend on the iteration order; confirmed by reading the pinned tree
+HASH_EXCEPT = {
+    ("Model::get_parsed_defined_name", "into_iter#1"): "first match over keys that are unique: (scope, name.to_lowercase()) is how entries are inserted, so at most one key matches the case-insensitive test",
+    ("Parser::parse_primary", "keys#1"): "existence test: the value returned is the identifier typed by the user, not the matching table key",
+    ("Model::reset_dynamic_array_spills", "into_iter#1"): "collects the dynamic anchors; each anchor's reset touches only its own block (spill blocks of one sheet are disjoint), so the visiting order is immaterial",
+    ("Model::reset_dynamic_array_spills", "into_iter#2"): "inner loop of the same collection (cells of one row)",
+    ("Worksheet::column_cell_references", "keys#1"): "collects the cells of one column for callers that treat every row independently (move of a column rebuilds each cell on its own)",
+    ("Worksheet::column_cell_references", "into_iter#2"): "the same loop (IntoIterator on the keys iterator)",
+    ("Worksheet::dimension", "into_iter#1"): "min/max accumulation over rows",
+    ("Worksheet::dimension", "keys#2"): "min/max accumulation over columns",
+    ("Model::get_columns_for_row", "keys#1"): "collected into a Vec that is sorted before it is returned (or returned for callers that move each cell independently)",
+    ("Model::insert_columns", "keys#1"): "rows are visited in hash order but each row is shifted on its own (columns inside a row are taken in "
+                                         "descending order by get_columns_for_row); no row's result depends on another row",
+    ("Model::move_column_unchecked", "iter#1"): "links of the moved column are collected and re-inserted into a map keyed by position",
+    ("Model::move_row_unchecked", "iter#1"): "links of the moved row are collected and re-inserted into a map keyed by position",
+}
+
+
+def hash_order(ck, F):
+    """HASH-ORDER (C07): every iteration over a HashMap/HashSet in code reachable from evaluation, input, the structural
+    actions and (de)serialisation is order-insensitive by an enumerated idiom or a confirmed single-site reason."""
+    R = "HASH-ORDER"
+    P = Program(F)
+    reach = set()
+    for q in HASH_ROOTS:
+        for r in F.find(q):
+            reach |= P.reachable(r)
+    ck.ob(R, "reachable-set", len(reach) >= 1000, "only %d bodies reachable from the roots (anchors lost?)" % len(reach))
+    n = 0
+    for p in sorted(reach):
+        h = F.heads[p]
+        if "/functions/" in h["file"]:
+            continue
+        cs = F.calls.get(p, [])
+        if not any("HashMap" in c or "HashSet" in c or "hash::map" in c or "hash::set" in c for c in cs):
+            continue
+        b = F.body(p)
+        qn = "::".join(b.qname.split("::")[-2:]) if "{closure" not in b.qname else "::".join(b.qname.split("::")[-3:])
+        k = 0
+        for bi, t in b.calls():
+            q = b.callee_q(t) or ""
+            last = q.rsplit("::", 1)[-1]
+            if last not in ITER_FNS:
+                continue
+            a0 = t["args"][0] if t["args"] else None
+            pl = op_place(a0) if a0 else None
+            ty = b.locals[pl["l"]] if pl is not None else ""
+            hashy = ("HashMap" in q or "HashSet" in q or "hash::map" in q or "hash::set" in q or
+                     ("IntoIterator" in q and ("collections::HashMap" in ty or "collections::HashSet" in ty or "hash::map::" in ty or "hash::set::" in ty)))
+            if not hashy:
+                continue
+            k += 1
+            n += 1
+            site = "%s#%d" % (last, k)
+            verdict, why = _classify_iteration(b, bi, t)
+            if verdict is None:
+                # idiom D: a pure predicate - the enclosing function writes nothing and returns only constant booleans,
+                # so what it computes is an exists/forall over the collection
+                root = F.heads[p].get("root") or p
+                rb = F.body(root)
+                if _pure_predicate(F, P, rb):
+                    verdict, why = True, "pure predicate (%s): constant boolean results, no writes" % rb.name
+            f, l = b.loc(bi)
+            if verdict is None and (qn, site) in HASH_EXCEPT:
+                ck.ob(R, "%s|%s" % (qn, site), True, HASH_EXCEPT[(qn, site)], nontrivial=False)
+                continue
+            ck.ob(R, "%s|%s" % (qn, site), verdict is True,
+                  "%s iterates a hash map/set (%s) and the result is consumed in iteration order (%s): values can depend on the hasher's order"
+                  % (qn, last, why), f, l, sample={"fn": qn, "site": site, "idiom": why})
+    ck.note("iteration_sites", n)
+
+
+def _pure_predicate(F, P, rb):
+    if rb is None or not (F.heads[rb.path].get("output") or "").startswith("std::result::Result<bool"):
+        return False
+    if P.direct.get(rb.path):
+        return False
+    for c in P.reachable(rb.path):
+        if P.direct.get(c) and any(a.startswith("ironcalc_base::types::") for a, _ in P.direct[c]):
+            return False
+    oks = [s for _, _, s in rb.stmts() if s["p"]["l"] == 0 and s["rv"]["k"] == "agg" and s["rv"].get("variant") == "Ok"]
+    if not oks:
+        return False
+    return all(const_bool(s["rv"]["ops"][0]) is not None for s in oks)
+
+
+def _classify_iteration(b, bi, t):
+    """(True, idiom) when order-insensitive by idiom; (None, why) when undetermined."""
+    cur = t["dest"]["l"] if not place_proj(t["dest"]) else None
+    steps = 0
+    seen = set()
+    while cur is not None and steps < 12:
+        steps += 1
+        # find the call consuming `cur` as first argument
+        nxt = None
+        for cb, ct in b.calls():
+            if cb in seen or not ct["args"]:
+                continue
+            p0 = op_place(ct["args"][0])
+            if p0 is None:
+                continue
+            src = b.trace(ct["args"][0])
+            is_use = (p0["l"] == cur and not place_proj(p0)) or (src["kind"] == "call" and src["bi"] == bi and steps == 1) or \
+                     (b.ref_target(ct["args"][0]) is not None and b.ref_target(ct["args"][0])["l"] == cur and not place_proj(b.ref_target(ct["args"][0])))
+            if not is_use:
+                # moved through a temp
+                r = b.def_rvalue(p0["l"]) if not place_proj(p0) else None
+                if r is not None and r.get("k") == "use" and op_place(r["o"]) is not None and op_place(r["o"])["l"] == cur:
+                    is_use = True
+            if is_use:
+                nxt = (cb, ct)
+                break
+        if nxt is None:
+            return None, "iterator escapes (stored or returned)"
+        cb, ct = nxt
+        seen.add(cb)
+        q = b.callee_q(ct) or ""
+        last = q.rsplit("::", 1)[-1]
+        if last in INSENSITIVE_TERMINALS:
+            return True, "folded with %s" % last
+        if last == "collect" or last == "from_iter":
+            dty = b.locals[ct["dest"]["l"]] if not place_proj(ct["dest"]) else ""
+            if any(x in dty for x in ("HashMap", "HashSet", "BTreeMap", "BTreeSet")):
+                return True, "collected into %s" % dty.split("<")[0].rsplit("::", 1)[-1]
+            if dty.startswith("std::vec::Vec"):
+                v = ct["dest"]["l"]
+                # moved into a named local?
+                locs = {v}
+                for _ in range(3):
+                    for bj, sj, s in b.stmts():
+                        if s["rv"]["k"] == "use" and op_place(s["rv"]["o"]) is not None and op_place(s["rv"]["o"])["l"] in locs and not place_proj(s["p"]):
+                            locs.add(s["p"]["l"])
+                for sb, st in b.calls():
+                    sq = (b.callee_q(st) or "").rsplit("::", 1)[-1]
+                    if sq.startswith("sort") and st["args"]:
+                        rt = b.ref_target(st["args"][0])
+                        tr = b.trace(st["args"][0])
+                        base = rt["l"] if rt is not None else (tr["place"]["l"] if tr["kind"] == "place" else None)
+                        if base in locs or (tr["kind"] == "call" and (b.callee_q(tr["t"]) or "").endswith("deref_mut") and
+                                            (b.ref_target(tr["t"]["args"][0]) or {}).get("l") in locs):
+                            return True, "collected into a Vec that is sorted"
+                # every use of the Vec is a loop whose exits return constants (existence test)
+                return None, "collected into an unsorted Vec"
+            return None, "collected into %s" % dty
+        if last in ADAPTERS or last == "next" and False:
+            cur = ct["dest"]["l"] if not place_proj(ct["dest"]) else None
+            continue
+        if last == "next":
+            return None, "consumed element by element in a loop"
+        if last in ("sum", "product", "fold", "for_each", "find", "find_map", "position", "last", "nth", "extend"):
+            return None, "consumed by %s" % last
+        return None, "consumed by %s" % last
+    return None, "undetermined"
